@@ -155,14 +155,16 @@ def observe(c, rnd, n_obs):
             d = sb.path("a%d" % ano)
             os.makedirs(d)
             flavour = ["plain", "solid", "mixed", "encrypted", "encsolid", "multipart"][ano % 6]
-            base = {"multipart": rnd.choice(["plain", "mixed"])}.get(flavour, flavour)
+            # multipart sets also of encrypted entries, cut at many different sizes: a part boundary then falls inside IV chunks,
+            # PHSF-to-data transitions and metadata (seeded C17-4: the IV read with one read() instead of read_exact)
+            base = {"multipart": rnd.choice(["plain", "mixed", "encrypted", "encrypted"])}.get(flavour, flavour)
             newline = rnd.random() < 0.2
             items = gen_archive(rnd, base, newline)
             path = os.path.join(d, "a.pna")
             X.mkarchive(items, path)
             inputs = [path]
             if flavour == "multipart":
-                parts = X.split_parts(sb.root, path, rnd.choice([150, 250]))
+                parts = X.split_parts(sb.root, path, rnd.choice([150, 250, rnd.randint(120, 300), rnd.randint(120, 300)]))
                 if parts:
                     inputs = parts
                 else:
@@ -176,7 +178,7 @@ def observe(c, rnd, n_obs):
             names = X.names_of(objs)
             has_solid = any("solid_header" in o for o in objs)
             has_nl = any("\n" in n for n in names)
-            pw = ["--password", X.PW] if flavour in ("encrypted", "encsolid") else []
+            pw = ["--password", X.PW] if base in ("encrypted", "encsolid") else []
             # `experimental stdio -t` is the same listing as `list --solid` (stdio.rs run_list_archive builds the same
             # ListOptions), from a named file and from standard input; single-file archives only (stdin cannot chain parts)
             if len(inputs) == 1 and rnd.random() < 0.5:
